@@ -2,5 +2,7 @@
    model/TqSql.v, the value-independent check pok, and the marker substitution on trees.
    Directives: ExtrOcamlBasic + ExtrOcamlString only; N, Z, positive, nat stay inductive. *)
 From Coq Require Import Extraction ExtrOcamlBasic ExtrOcamlString.
-From Qryn Require Import lib.Strs model.Quote model.ChLex model.SqlPieces model.TqSql model.TqPieces.
-Extraction "c10tq.ml" tq_stmt_of tq_marker_subst.
+From Qryn Require Import lib.Strs model.Quote model.ChLex model.SqlPieces model.TqSql model.TqPieces model.Traceql model.TraceqlPlan.
+(* plan: C11's planner model, run on the hostile requests so that the trees the value-independence theorems speak about are compared
+   with the trees the real planners build *)
+Extraction "c10tq.ml" tq_stmt_of tq_marker_subst plan.
